@@ -14,6 +14,7 @@ import Emboss.Lemmas.TokBoundary
 import Emboss.Lemmas.TokLongest
 import Emboss.Lemmas.TokSplit
 import Emboss.Lemmas.TokLineSpec
+import Emboss.Lemmas.TokFileSpec
 import Emboss.Lemmas.TokBlankJoin
 import Emboss.Generated.TokTable
 namespace Emboss.Tok
@@ -288,6 +289,39 @@ theorem C10_tokenize_line_eq_spec (pats : List Pat) (ln : Nat) (line : List Char
     | ok ts =>
       obtain ⟨segs, hc, _⟩ := tokLine_covers pats ln _ _ _ ts h
       exact .inl ⟨segs, hc⟩
+
+/-- **`tokenize` equals its declarative specification** (any pattern list): it answers
+`ok toks` iff `toks` is the `FileCover` of the text's lines (so `C10_lossless` is an
+equivalence, and the cover is unique); it answers an error iff the text `FileFails` with
+exactly that message and location — the lines before the failing one have covers and
+indentation steps, and the failing line is stuck at offset `k` ("Unrecognized token",
+columns `k+1`–`k+2`) or is a non-blank line whose leading whitespace neither extends the
+innermost open level nor equals an open one ("Bad indentation", over the leading whitespace);
+and one of the two always holds. -/
+theorem C10_tokenize_eq_spec (pats : List Pat) (text : List Char) :
+    (∀ toks, tokenize pats text = .ok toks ↔ FileCover pats (splitLines text) 1 ⟨[], []⟩ toks) ∧
+    (∀ msg a b c d, tokenize pats text = .err msg a b c d ↔
+      FileFails pats (splitLines text) 1 ⟨[], []⟩ msg a b c d) ∧
+    (∀ t₁ t₂, FileCover pats (splitLines text) 1 ⟨[], []⟩ t₁ →
+      FileCover pats (splitLines text) 1 ⟨[], []⟩ t₂ → t₁ = t₂) ∧
+    ((∃ toks, FileCover pats (splitLines text) 1 ⟨[], []⟩ toks) ∨
+      (∃ msg a b c d, FileFails pats (splitLines text) 1 ⟨[], []⟩ msg a b c d)) := by
+  refine ⟨fun toks => ⟨tokLines_cover pats _ _ _ _, fun h => h.tokLines_eq⟩,
+    fun msg a b c d => ⟨tokLines_err_fails pats _ _ _ _ _ _ _ _, fun h => h.tokLines_eq⟩, ?_, ?_⟩
+  · intro t₁ t₂ h₁ h₂
+    have e₁ := h₁.tokLines_eq
+    rw [h₂.tokLines_eq] at e₁
+    cases e₁; rfl
+  · cases h : tokenize pats text with
+    | fuel => exact absurd h (C10_tokenize_fuel_sufficient pats text)
+    | ok toks => exact .inl ⟨toks, tokLines_cover pats _ _ _ _ h⟩
+    | err msg a b c d => exact .inr ⟨msg, a, b, c, d, tokLines_err_fails pats _ _ _ _ _ _ _ _ h⟩
+
+/-- Non-vacuity (tests by evaluation): both kinds of declared failure occur. -/
+example : FileFails tokTable.pats (splitLines "a\n  b\n c".toList) 1 ⟨[], []⟩ "Bad indentation" 3 1 3 2 ∧
+    FileFails tokTable.pats (splitLines "a\n b ~".toList) 1 ⟨[], []⟩ "Unrecognized token" 2 4 2 5 :=
+  ⟨((C10_tokenize_eq_spec _ _).2.1 _ _ _ _ _).mp (by decide +kernel),
+   ((C10_tokenize_eq_spec _ _).2.1 _ _ _ _ _).mp (by decide +kernel)⟩
 
 /-- **The regenerated table.**  The same with the specification phrased through the
 documented patterns' *languages* only (no matcher, no backtracking order): `MunchCovers` /
